@@ -42,7 +42,7 @@ type C06Case struct {
 }
 
 var c06Bodies = []string{"valid-ping", "valid-call", "valid-list", "valid-notif", "valid-init", "valid-initialized", "valid-initialized", "response-unsolicited", "lattice", "lattice", "lattice",
-	"truncated", "garbage", "garbage", "invalid-utf8", "deep-array", "deep-object", "large", "nonobject", "empty", "trailing", "bom", "nul", "huge-number", "float-id", "long-method", "ws-only"}
+	"weird-id-error", "truncated", "garbage", "garbage", "invalid-utf8", "deep-array", "deep-object", "large", "nonobject", "empty", "trailing", "bom", "nul", "huge-number", "float-id", "long-method", "ws-only"}
 
 var (
 	c06LatticeOnce []ReqStep
@@ -98,6 +98,11 @@ func c06Body(op C06Op, stdio bool) (body []byte, malformed bool, expectID string
 		l := c06Lattice()
 		st := l[op.N%len(l)]
 		return []byte(st.Raw), false, ""
+	case "weird-id-error":
+		// two things wrong at once: an id that is neither a string nor a number, and something the server must refuse
+		ids := []string{`[1]`, `{"a":1}`, `true`, `[]`, `{}`, `false`, `[[1,"x"]]`}
+		reqs := []string{`"method":"zz/unknown"`, `"method":"tools/call","params":{"name":"no-such-tool","arguments":{}}`, `"method":"tools/call","params":{"name":7}`, `"method":"initialize","params":{"protocolVersion":5}`, `"method":"prompts/get","params":{}`, `"method":"resources/read","params":{"uri":"file:///nope"}`}
+		return []byte(`{"jsonrpc":"2.0","id":` + ids[op.N%len(ids)] + `,` + reqs[op.Variant%len(reqs)] + `}`), true, ""
 	case "truncated":
 		k := 1 + op.N%(len(validCall)-1)
 		return []byte(validCall[:k]), true, ""
@@ -569,6 +574,9 @@ func execC06HTTP(c C06Case) *Failure {
 		}
 		if rightPath && verb != "POST" && verb != "DELETE" && verb != "GET" && ex.Status < 400 {
 			return Failf("C06/wrong-verb-served", "%s: status %d", where, ex.Status)
+		}
+		if legacy && op.Body == "weird-id-error" {
+			malformed = false // the legacy server answers requests on the session's stream; survival is judged below
 		}
 		if rightPath && verb == "POST" && malformed && !isErrorAnswer(ex) {
 			return Failf("C06/malformed-not-refused/"+op.Body, "%s: malformed body %.80q answered with status %d body %.120q", where, body, ex.Status, ex.Body)
